@@ -142,8 +142,11 @@ Definition adds (t : tree) (ops : list op) (k : bytes) : bool :=
 (* all directories that are a (non-root) parent of some member *)
 Definition member_parents (ms : list member) : list bytes := flat_map (fun x => nrparents (key x)) ms.
 
-(* 1. every member name is relative under ./ *)
-Definition s_relative (ms : list member) : bool := forallb (fun x => fprefix (bs "./") (m_name x)) ms.
+(* 1. every member name is relative under ./ : "./" followed by a clean path (no empty, "." or ".."
+      component), or "./" itself *)
+Definition s_relative (ms : list member) : bool :=
+  forallb (fun x => if fprefix (bs "./") (m_name x)
+                    then (if feq (key x) root_path then true else abs_cleanb (key x)) else false) ms.
 (* 2. ... appears once *)
 Definition s_unique (ms : list member) : bool := nodupb (map m_name ms).
 (* 3. ... is preceded in the archive by all of its parent directories *)
